@@ -77,3 +77,31 @@ fn ops_match_i64_semantics_on_boundaries() {
         }
     }
 }
+
+#[test]
+fn checked_add_sub_match_i64_on_boundaries() {
+    // solver-decided: for every x in the range, SymInt::checked_add / checked_sub agree with i64's
+    use symx_int::{explore, oblige, Limits, SymInt};
+    let lim = Limits { max_paths: 200, max_secs: 30.0, max_violations: 10 };
+    for k in [i64::MAX, i64::MAX - 5, 7, 0, -7, i64::MIN + 5, i64::MIN] {
+        let rep = explore(&lim, 1, true, &[], &mut || {
+            let x = SymInt::input("x", -1000, 1000);
+            let kk = SymInt::lit(k);
+            match kk.checked_add(x) {
+                Some(s) => {
+                    let w = k as i128 + x.conc() as i128;
+                    assert!(w >= i64::MIN as i128 && w <= i64::MAX as i128, "Some although overflow");
+                    oblige("sum", s.eq_c(kk.saturating_add(x)));
+                    assert_eq!(s.conc() as i128, w);
+                }
+                None => assert!(k.checked_add(x.conc()).is_none(), "None without overflow"),
+            }
+            match kk.checked_sub(x) {
+                Some(s) => assert_eq!(s.conc() as i128, k as i128 - x.conc() as i128),
+                None => assert!(k.checked_sub(x.conc()).is_none(), "None without overflow"),
+            }
+        });
+        assert!(rep.violations.is_empty(), "k={} {:?}", k, rep.violations.iter().map(|v| v.detail.clone()).collect::<Vec<_>>());
+        assert!(rep.complete);
+    }
+}
